@@ -144,6 +144,7 @@ mutual
         have ih2 := frame W h2 (clean_boolOp2 hc).2
         exact ⟨ih2.1.trans ih1.1, fun t2 => .orF a b (ih1.2 t2) hb (ih2.2 t2)⟩
     | _, _, _, _, _, _, .forComp elt x itr hx _ _ _, hc => (not_clean_forComp hx hc).elim
+    | _, _, _, _, _, _, .whileComp elt test _, hc => (not_clean_forComp (by decide) hc).elim
     | _, _, _, _, _, _, .runner u t, _ => ⟨rfl, fun t2 => .runner u t2⟩
     | _, _, _, _, _, _, .chain f a hch h1 h2, hc => by
         have ih1 := frame W h1 (clean_chain hch hc).1
